@@ -66,8 +66,8 @@ type Gen struct {
 	maxRead int
 
 	vfs        *simVFS
-	pendingDel map[*sched.Task][]string
-	flushing   map[*sched.Task]bool
+	pendingDel []pendingDeletes
+	flushing   []*sched.Task
 }
 
 // flushDeletes applies the Delete calls a task has issued since its last other
@@ -77,23 +77,43 @@ type Gen struct {
 // crash points inside the run land on the same files in every execution of a
 // seed (the WAL only logs Delete errors, so deferring the effect to the end of
 // the run of calls changes nothing it can observe).
+type pendingDeletes struct {
+	t     *sched.Task
+	names []string
+}
+
 func (g *Gen) flushDeletes() {
 	t := g.sim.Current()
-	if t == nil || g.flushing[t] {
+	if t == nil {
 		return
 	}
-	names := g.pendingDel[t]
+	for _, f := range g.flushing {
+		if f == t {
+			return // recursion guard per task: deleteNow re-enters the seam path
+		}
+	}
+	var names []string
+	for i := range g.pendingDel {
+		if g.pendingDel[i].t == t {
+			names = g.pendingDel[i].names
+			g.pendingDel[i] = g.pendingDel[len(g.pendingDel)-1]
+			g.pendingDel = g.pendingDel[:len(g.pendingDel)-1]
+			break
+		}
+	}
 	if len(names) == 0 {
 		return
 	}
-	delete(g.pendingDel, t)
 	sort.Strings(names)
-	if g.flushing == nil {
-		g.flushing = map[*sched.Task]bool{}
-	}
-	// recursion guard per task: deleteNow re-enters the seam path
-	g.flushing[t] = true
-	defer delete(g.flushing, t)
+	g.flushing = append(g.flushing, t)
+	defer func() {
+		for i, f := range g.flushing {
+			if f == t {
+				g.flushing = append(g.flushing[:i], g.flushing[i+1:]...)
+				break
+			}
+		}
+	}()
 	for _, n := range names {
 		if err := g.vfs.deleteNow(n); err != nil {
 			g.ex.probes.Add("delete_failed", 1)
@@ -185,11 +205,14 @@ func (v *simVFS) Delete(dir, name string) error {
 	if t == nil {
 		return errDead
 	}
-	if v.g.pendingDel == nil {
-		v.g.pendingDel = map[*sched.Task][]string{}
-	}
 	v.g.vfs = v
-	v.g.pendingDel[t] = append(v.g.pendingDel[t], name)
+	for i := range v.g.pendingDel {
+		if v.g.pendingDel[i].t == t {
+			v.g.pendingDel[i].names = append(v.g.pendingDel[i].names, name)
+			return nil
+		}
+	}
+	v.g.pendingDel = append(v.g.pendingDel, pendingDeletes{t: t, names: []string{name}})
 	return nil
 }
 
@@ -301,6 +324,7 @@ func (f *simFile) WriteAt(p []byte, off int64) (int, error) {
 		return n, f.g.injected(c, syscall.ENOSPC)
 	}
 	f.ino.WriteAt(p, off)
+	raceWrite()
 	if act == actCrashAfter {
 		f.g.crash(c, "after")
 	}
@@ -336,6 +360,7 @@ func (f *simFile) ReadAt(p []byte, off int64) (int, error) {
 		return 0, &os.PathError{Op: "readat", Path: f.name, Err: errors.New("negative offset")}
 	}
 	n, eof := f.ino.ReadAt(p, off)
+	raceRead()
 	if eof {
 		return n, io.EOF
 	}
